@@ -209,8 +209,15 @@ func runC16(w *World, r *Report, tier string) {
 	s, isConv := bytesOfString(data)
 	okForm := false
 	form := "?"
+	var as0 []atom
 	if isConv {
-		as := mergeConstAtoms(strAtoms(s))
+		as0 = strAtoms(s)
+	} else if ba, ok := byteAtoms(data); ok {
+		// (assembled by appends into an empty buffer)
+		as0, isConv = ba, true
+	}
+	if isConv {
+		as := mergeConstAtoms(as0)
 		form = atomsString(w, as)
 		okForm = len(as) == 3 && as[0].IsC && as[0].Const == "<handshake>" && as[1].Val == ssa.Value(hc) && as[2].IsC && as[2].Const == "</handshake>"
 	}
